@@ -7,11 +7,15 @@ cd /repo || exit 2
 git diff --quiet || { echo "/repo has uncommitted changes"; exit 2; }
 git apply "$PATCH" || { echo "patch does not apply"; exit 2; }
 cd /verif
+# evidence files must only ever come from the unchanged tree: keep them aside
+BK=$(mktemp -d)
+cp -a evidence/. "$BK"/
 for p in "$@"; do
   out=$(./check $p --tier quick 2>&1 | grep -v KNOWN-FINDING | tail -3)
   echo "== $p: $out"
 done
 git -C /repo checkout -- .
+cp -a "$BK"/. evidence/ && rm -rf "$BK"
 git -C /repo status --short | head -3
 # regenerate the tables from the restored tree
 python3 -c "import sys; sys.path.insert(0, '/verif'); from vlib import core; print('translator:', core.run_translator()[0])"
